@@ -411,7 +411,9 @@ at `idx` before the move. -/
 def moveElem (parent idx v : Nat) : M Unit := do
   let s ← getS
   let anchor := ((kids (rowsOf s parent) parent)[idx]?).map (·.nid)
-  if (subtreeRows s v).any (·.nid == parent) then raise (.unmodelled "moving an element below itself")
+  -- `_check_movable(value._element, parent)` (fix 0f18930): the new parent is the element itself or lies below it (in the
+  -- same tree: lxml's `iterancestors` stops at the root of a fragment file) - refused before anything is un-indexed
+  if (subtreeRows s v).any (·.nid == parent) then hit "move.below-itself-refused"; raise .valueError
   if (locate s.frags v).isSome && ((findRow s v).bind (·.parent)).isNone then
     raise (.unmodelled "moving the root of a fragment file")
   if anchor == some v then
